@@ -27,6 +27,8 @@ import (
 	"github.com/andydunstall/piko/pkg/log"
 	"github.com/andydunstall/piko/server"
 	"github.com/andydunstall/piko/server/config"
+
+	"verif/harness/vlib"
 )
 
 // TimeScale stretches every deadline (VERIF_TIME_SCALE).
@@ -52,6 +54,92 @@ func Eventually(d time.Duration, f func() bool) bool {
 		}
 		time.Sleep(5 * time.Millisecond)
 	}
+}
+
+// The scheduling-latency monitor: a goroutine that sleeps 10 ms at a time and
+// records how late it wakes up. Liveness oracles use it to tell "piko did not
+// get there" from "this process was not given the CPU" (a loaded machine).
+type latSample struct {
+	at   time.Time
+	late time.Duration
+}
+
+var latMon struct {
+	once sync.Once
+	mu   sync.Mutex
+	ring []latSample
+}
+
+func startLatencyMonitor() {
+	latMon.once.Do(func() {
+		go func() {
+			const tick = 10 * time.Millisecond
+			for {
+				t0 := time.Now()
+				time.Sleep(tick)
+				late := time.Since(t0) - tick
+				latMon.mu.Lock()
+				latMon.ring = append(latMon.ring, latSample{t0, late})
+				if len(latMon.ring) > 20000 {
+					latMon.ring = append([]latSample(nil), latMon.ring[10000:]...)
+				}
+				latMon.mu.Unlock()
+			}
+		}()
+	})
+}
+
+// Lateness reports, for the wake-ups since the given time, the worst and the
+// mean lateness and the fraction of the wall time that was lost to late wake-ups.
+func Lateness(since time.Time) (worst, mean time.Duration, lost float64) {
+	latMon.mu.Lock()
+	defer latMon.mu.Unlock()
+	var sum time.Duration
+	n := 0
+	for _, s := range latMon.ring {
+		if s.at.Before(since) {
+			continue
+		}
+		n++
+		sum += s.late
+		if s.late > worst {
+			worst = s.late
+		}
+	}
+	if n == 0 {
+		return 0, 0, 0
+	}
+	return worst, sum / time.Duration(n), float64(sum) / float64(time.Since(since))
+}
+
+// Views describes every live node's view of every other node (for failure messages).
+func (cl *TCluster) Views() string {
+	var b strings.Builder
+	for _, x := range cl.Nodes {
+		if !x.Up {
+			fmt.Fprintf(&b, "%s: down; ", x.ID)
+			continue
+		}
+		fmt.Fprintf(&b, "%s sees [", x.ID)
+		for _, n := range x.Srv.ClusterState().Nodes() {
+			fmt.Fprintf(&b, "%s:%s:%v ", n.ID, n.Status, n.Endpoints)
+		}
+		b.WriteString("]; ")
+	}
+	return b.String()
+}
+
+// Missf reports a missed liveness deadline. If this process was not given the CPU
+// during the wait (late wake-ups add up to a quarter of the time, or one was a
+// second late) the miss says nothing about piko: it is a harness error (the
+// check is undecided, exit 2). Otherwise it is a violation.
+func Missf(c *vlib.Case, format string, args ...any) {
+	worst, mean, lost := Lateness(time.Now().Add(-3 * Deadline()))
+	msg := fmt.Sprintf(format, args...) + fmt.Sprintf(" [scheduling lateness of this process in the last %v: worst %v, mean %v, %.0f%% of the time lost]", 3*Deadline(), worst.Round(time.Millisecond), mean.Round(time.Microsecond), 100*lost)
+	if lost >= 0.25 || worst >= time.Second {
+		c.Harnessf("starved machine, liveness deadline inconclusive: %s", msg)
+	}
+	c.Fatalf("%s", msg)
 }
 
 // TNode is one real server node.
@@ -107,17 +195,37 @@ func (cl *TCluster) HoldPorts(n *TNode) {
 	}
 }
 
+// clusterIP gives every cluster of every test process its own loopback address
+// (all of 127/8 is local on Linux). Port numbers are then private to the cluster:
+// nothing that outlives a cluster - a node of another shard that is still
+// shutting down, an upstream listener that is still reconnecting - can reach a
+// later cluster through a reused port number, and node ids may repeat across
+// clusters without one cluster's gossip being applied by another.
+func clusterIP(gen int) string {
+	return fmt.Sprintf("127.%d.%d.%d", 16+os.Getpid()%224, (gen/254)%256, 1+gen%254)
+}
+
+// sameHost returns "<host of addr>:0": a listen address on the same loopback
+// address as addr, with a port of the kernel's choosing.
+func sameHost(addr string) string {
+	host, _, err := net.SplitHostPort(addr)
+	if err != nil {
+		return "127.0.0.1:0"
+	}
+	return net.JoinHostPort(host, "0")
+}
+
 // NewNodeConf is the base configuration of a test node.
-func NewNodeConf(id string, join []string) *config.Config {
+func NewNodeConf(id string, join []string, ip string) *config.Config {
 	conf := config.Default()
-	conf.Proxy.BindAddr = "127.0.0.1:0"
-	conf.Upstream.BindAddr = "127.0.0.1:0"
-	conf.Admin.BindAddr = "127.0.0.1:0"
+	conf.Proxy.BindAddr = ip + ":0"
+	conf.Upstream.BindAddr = ip + ":0"
+	conf.Admin.BindAddr = ip + ":0"
 	conf.Cluster.NodeID = id
 	conf.Cluster.Join = join
 	conf.Cluster.AbortIfJoinFails = false
 	conf.Cluster.JoinTimeout = 2 * time.Second
-	conf.Cluster.Gossip.BindAddr = "127.0.0.1:0"
+	conf.Cluster.Gossip.BindAddr = ip + ":0"
 	conf.Cluster.Gossip.Interval = 100 * time.Millisecond
 	conf.Proxy.AccessLog.Disable = true
 	conf.GracePeriod = 10 * time.Second
@@ -142,6 +250,7 @@ func StartCluster(n int, noJoin bool, mod func(i int, c *config.Config)) (*TClus
 }
 
 func startCluster(n int, noJoin bool, mod func(i int, c *config.Config)) (*TCluster, error) {
+	startLatencyMonitor()
 	cl := &TCluster{Gen: int(clusterGen.Add(1))}
 	for i := 0; i < n; i++ {
 		var join []string
@@ -150,7 +259,7 @@ func startCluster(n int, noJoin bool, mod func(i int, c *config.Config)) (*TClus
 				join = append(join, p.GossipAddr())
 			}
 		}
-		conf := NewNodeConf(fmt.Sprintf("n%d", i), join)
+		conf := NewNodeConf(fmt.Sprintf("n%d", i), join, clusterIP(cl.Gen))
 		if mod != nil {
 			mod(i, conf)
 		}
@@ -335,6 +444,8 @@ type UpstreamOpts struct {
 	URL      string // overrides the node's upstream URL (e.g. a load balancer or relay)
 	Token    string
 	TenantID string
+	// AccessLog configures the agent's access log (agent kinds only); nil = disabled.
+	AccessLog *log.AccessLogConfig
 }
 
 // ConnectUpstream connects a new stamping upstream of the given kind.
@@ -369,6 +480,9 @@ func ConnectUpstream(ctx context.Context, node *TNode, id, endpoint, kind string
 		u.local = httptest.NewServer(u.stampHandler())
 		conf := agentconfig.ListenerConfig{EndpointID: endpoint, Addr: u.local.URL, Protocol: agentconfig.ListenerProtocolHTTP, Timeout: 15 * time.Second}
 		conf.AccessLog.Disable, conf.AccessLog.Level = true, "info"
+		if o.AccessLog != nil {
+			conf.AccessLog = *o.AccessLog
+		}
 		u.agentRP = reverseproxy.NewServer(conf, reverseproxy.NewMetrics("verif"), log.NewNopLogger())
 		go func() {
 			defer close(u.serveDone)
@@ -421,15 +535,6 @@ func (u *Up) IsHTTP() bool { return strings.HasSuffix(u.Kind, "http") }
 func (u *Up) Disconnect() {
 	u.gone.Store(true)
 	_ = u.ln.Shutdown()
-	// a listener that was in the middle of reconnecting may have installed a new
-	// session after Shutdown read the old one: shut down once more when serving ended
-	go func() {
-		select {
-		case <-u.serveDone:
-		case <-time.After(2 * time.Second):
-		}
-		_ = u.ln.Shutdown()
-	}()
 	if u.httpSrv != nil {
 		_ = u.httpSrv.Close()
 	}
@@ -446,6 +551,27 @@ func (u *Up) Disconnect() {
 	}
 	if u.localTCP != nil {
 		_ = u.localTCP.Close()
+	}
+	// A listener that was in the middle of reconnecting may install a new session
+	// after Shutdown looked at the old one (the client library does not
+	// synchronise the two), and would then stay connected for good: shut down
+	// again until serving has ended. The first second is waited for here so that
+	// DisconnectEnd bounds the time the upstream can have served; the rest runs in
+	// the background.
+	again := func(d time.Duration) bool {
+		end := time.Now().Add(d)
+		for time.Now().Before(end) {
+			select {
+			case <-u.serveDone:
+				return true
+			case <-time.After(100 * time.Millisecond):
+				_ = u.ln.Shutdown()
+			}
+		}
+		return false
+	}
+	if !again(time.Second) {
+		go again(5 * time.Minute)
 	}
 	u.DisconnectEnd = time.Now()
 }
@@ -469,6 +595,7 @@ type HTTPResult struct {
 	End      time.Time
 	Endpoint string // stamp
 	Upstream string // stamp
+	Trailer  http.Header
 }
 
 var httpClient = &http.Client{
@@ -503,7 +630,7 @@ func DoWith(client *http.Client, req *http.Request) *HTTPResult {
 	defer resp.Body.Close()
 	res.Body, res.Err = io.ReadAll(resp.Body)
 	res.End = time.Now()
-	res.Status, res.Header = resp.StatusCode, resp.Header
+	res.Status, res.Header, res.Trailer = resp.StatusCode, resp.Header, resp.Trailer
 	res.Endpoint, res.Upstream = resp.Header.Get(HdrEndpoint), resp.Header.Get(HdrUpstream)
 	return res
 }
@@ -524,7 +651,8 @@ func Get(node *TNode, endpoint, mode, decoy string, hdr map[string]string) *HTTP
 		req.Host = decoy + ".piko.test"
 	}
 	for k, v := range hdr {
-		req.Header.Set(k, v)
+		// a value with line breaks is sent as several header lines of that name
+		req.Header[http.CanonicalHeaderKey(k)] = strings.Split(v, "\n")
 	}
 	return Do(req)
 }
